@@ -19,7 +19,7 @@ def family(rng):
     Expected singular equalities: k_i = k_j for j a strict ancestor of i with k_i not identical to k_j."""
     n = rng.choice([2, 3, 3, 3, 4])
     form = rng.choice(["rate", "rate", "tau", "mixed"])
-    pool_syms = ["a", "b", "c", "d"]
+    pool_syms = rng.sample(["a", "b", "c", "d"], 4) if form != "tau" else rng.sample(["tau_1", "tau_2", "tau_3", "tau_4"], 4)
     repeated = rng.random() < 0.35
     parents = [None]
     for i in range(1, n):
